@@ -5,6 +5,8 @@ from trees import trees
 ALPHA = "A1-=#'*"
 FUNCS = ["trees.parse_label", "trees.format_label", "trees.get_label"]
 ASSUMPTIONS = [
+    "component boundaries follow the grammar documented in parse_label's docstring, read from the right (head mark, co-index, "
+    "gap index) and then at the first function separator from the left that is neither first nor last character",
     "label strings range over the alphabet A 1 - = # ' * (letters and digits are represented by one member each; "
     "the code only tests isdigit(), equality with separators and the literals EMPTY / --)",
     "the literals EMPTY and -- (longer than the string bound of the quick tier) are covered by a dedicated condition "
